@@ -1866,6 +1866,11 @@ func (db *DatabaseContext) updateAllPrincipalsSequences(ctx context.Context, res
 }
 
 func (db *DatabaseContext) regeneratePrincipalSequences(ctx context.Context, authr *auth.Authenticator, princ auth.Principal, resyncID string) error {
+	// Already updated by this resync (e.g. by another node) - UpdateSequenceNumberForResync is a no-op, so no sequence is needed
+	if princ.ResyncID() == resyncID {
+		return nil
+	}
+
 	nextSeq, err := db.sequences.nextSequence(ctx)
 	if err != nil {
 		return err
@@ -1875,10 +1880,14 @@ func (db *DatabaseContext) regeneratePrincipalSequences(ctx context.Context, aut
 	if err != nil {
 		if base.IsCasMismatch(err) {
 			base.DebugfCtx(ctx, base.KeyAuth, "CAS mismatch updating principal %s to sequence %d during resync %s.  Assuming sequence updated by another node - releasing seq as unused.", base.UD(princ.Name()), nextSeq, base.UD(resyncID))
+		}
+		// For timeout errors, the write may or may not have succeeded so the sequence cannot be released as unused
+		if !base.IsTimeoutError(err) {
 			if releaseErr := db.sequences.releaseSequence(ctx, nextSeq); releaseErr != nil {
-				base.WarnfCtx(ctx, "Error when releasing sequence %d after a cas mismatch updating the resync principal. Falling back to skipped sequence handling.  Error:%v", nextSeq, releaseErr)
+				base.WarnfCtx(ctx, "Error when releasing sequence %d after failing to update the resync principal. Falling back to skipped sequence handling.  Error:%v", nextSeq, releaseErr)
 			}
-		} else {
+		}
+		if !base.IsCasMismatch(err) {
 			return err
 		}
 	}
